@@ -16,7 +16,9 @@ import (
 
 type c20LBank struct{ calls *[]string }
 
-func (b c20LBank) GetAllBalances(ctx context.Context, addr sdk.AccAddress) sdk.Coins { return sdk.Coins{} }
+func (b c20LBank) GetAllBalances(ctx context.Context, addr sdk.AccAddress) sdk.Coins {
+	return sdk.Coins{}
+}
 func (b c20LBank) SendCoinsFromModuleToAccount(ctx context.Context, senderModule string, recipientAddr sdk.AccAddress, amt sdk.Coins) error {
 	*b.calls = append(*b.calls, "SendCoinsFromModuleToAccount")
 	return nil
@@ -32,7 +34,7 @@ func (b c20LBank) BurnCoins(ctx context.Context, name string, amt sdk.Coins) err
 
 // bech32 is cut at its interface: decoding keeps the address string's bytes, encoding gives the string back
 func c20LAddrStub(address string) (sdk.AccAddress, error) { return sdk.AccAddress(address), nil }
-func c20LAddrString(aa sdk.AccAddress) string              { return string(aa) }
+func c20LAddrString(aa sdk.AccAddress) string             { return string(aa) }
 
 func c20LSetup() (*Keeper, sdk.Context, types.MsgServer, *[]string, types.PeriodLock) {
 	if vNative() {
